@@ -415,8 +415,23 @@ pub fn gen_c11(thorough: bool, seed: u64) -> Vec<Episode> {
                 cs.push(1u64 << k);
             }
             cs.push(0);
-            cs.push((1u64 << (n + 1)) - 1);
-            cs.push(0xaaaa_aaaa_aaaa_aaaa & ((1u64 << (n + 1)) - 1));
+            let all = (1u64 << (n + 1)) - 1;
+            cs.push(all);
+            cs.push(0xaaaa_aaaa_aaaa_aaaa & all);
+            // every count but one (in particular: every count but n, every count but 0)
+            for k in 0..=n {
+                cs.push(all ^ (1u64 << k));
+                if k % 3 == 0 {
+                    cs.push((all ^ (1u64 << k)) | (r.gen::<u64>() & !all));
+                }
+            }
+            // all counts below / above a threshold
+            for k in 1..=n {
+                if k % 2 == 1 || thorough {
+                    cs.push((1u64 << k) - 1);
+                    cs.push(all & !((1u64 << k) - 1));
+                }
+            }
         }
         let nrand = if thorough { 12 } else { 3 };
         for _ in 0..nrand {
@@ -1127,6 +1142,72 @@ pub fn gen_c02(thorough: bool, seed: u64) -> Vec<Episode> {
         let k = if n >= 10 { per_n / 2 } else { per_n };
         for _ in 0..k.max(3) {
             let ops = history(n, &mut r, &cfg);
+            eps.push(Episode { n, tys: tys_for(n), ops });
+        }
+        // systematic sweep for the sizes where a 64-bit word is only partially used (and the first
+        // multi-word size): every operation with every in-range argument on dense tables, whose
+        // results would show any bit shifted or complemented into positions >= 2^n
+        if n <= 7 {
+            let dense: Vec<Vec<usize>> = vec![(0..dom(n)).collect(), (0..dom(n)).filter(|&m| m != 0).collect(),
+                                              (0..dom(n)).filter(|&m| m != dom(n) - 1).collect(), random_on(n, &mut r)];
+            for t in &dense {
+                let mut ops = vec![load(0, n, t), load(1, n, &dense[3])];
+                for f in NOT_FORMS {
+                    ops.push(json!({"op": "logic", "g": "not", "f": f, "a": 0, "b": 0, "d": if f == "inplace" {0} else {2}}));
+                    if f == "inplace" {
+                        ops.push(json!({"op": "logic", "g": "not", "f": f, "a": 0, "b": 0, "d": 0}));
+                    }
+                }
+                for i in 0..n {
+                    ops.push(json!({"op": "flip", "f": "copy", "a": 0, "d": 2, "i": i}));
+                    ops.push(json!({"op": "flip", "f": "inplace", "a": 2, "d": 2, "i": i}));
+                    ops.push(json!({"op": "cofactors", "a": 0, "d0": 3, "d1": 4, "i": i}));
+                    ops.push(json!({"op": "fromcof", "a": 0, "b": 1, "d": 5, "i": i}));
+                    for j in 0..n {
+                        ops.push(json!({"op": "swap", "f": if (i + j) % 2 == 0 {"copy"} else {"inplace"}, "a": if (i + j) % 2 == 0 {0} else {2}, "d": 2, "i": i, "j": j}));
+                    }
+                    if i + 1 < n {
+                        ops.push(json!({"op": "swapadj", "f": "copy", "a": 0, "d": 2, "i": i}));
+                    }
+                }
+                for g in ["and", "or", "xor"] {
+                    ops.push(json!({"op": "logic", "g": g, "f": "ref_ref", "a": 0, "b": 1, "d": 2}));
+                }
+                ops.push(json!({"op": "setbit", "a": 0, "m": dom(n) - 1, "f": "set"}));
+                ops.push(json!({"op": "setbit", "a": 0, "m": dom(n) - 1, "f": "val0"}));
+                ops.push(json!({"op": "vnext", "a": 0}));
+                ops.push(json!({"op": "vnext", "a": 0}));
+                if n <= 5 {
+                    for kind in ["p", "n", "npn"] {
+                        ops.push(json!({"op": "canon", "kind": kind, "a": 0, "d": 6}));
+                    }
+                }
+                ops.push(json!({"op": "reload", "a": 0, "d": 7}));
+                ops.push(rel(0, 7, "eq"));
+                ops.push(rel(0, 7, "hasheq"));
+                ops.push(rel(0, 7, "cmp"));
+                eps.push(Episode { n, tys: tys_for(n), ops });
+            }
+            let mut ops: Vec<Value> = Vec::new();
+            for op in ["zero", "one", "parity", "majority"] {
+                ops.push(json!({"op": op, "d": 0, "n": n}));
+            }
+            for i in 0..n {
+                ops.push(json!({"op": "nth_var", "d": 0, "n": n, "i": i}));
+            }
+            for k in 0..=n + 1 {
+                ops.push(ctor_k("threshold", 0, n, k));
+                ops.push(ctor_k("equals", 0, n, k));
+            }
+            ops.push(json!({"op": "symmetric", "d": 0, "n": n, "cb": (0..64).collect::<Vec<usize>>(), "c_s": u64::MAX.to_string()}));
+            let w = hex_width(n);
+            let top = match n { 0 => b'1', 1 => b'3', _ => b'f' };
+            ops.push(from_hex(0, n, &vec![top; w]));
+            ops.push(json!({"op": "random", "d": 0, "n": n}));
+            ops.push(json!({"op": "iter_start", "n": n}));
+            for _ in 0..3 {
+                ops.push(json!({"op": "iter_next", "d": 0}));
+            }
             eps.push(Episode { n, tys: tys_for(n), ops });
         }
         // conversions Lut -> LutM -> Lut for every static size M (an Err is fine; an Ok must be well-formed)
